@@ -150,7 +150,7 @@ def _check(prop, tier, seed, replay, t0):
     except Exception:
         src_changed = []
     # the library differs from the tree the model was written against: look harder (never a verdict)
-    escalate = 4 if (src_changed and tier == 'quick') else 1
+    escalate = 2 if (src_changed and tier == 'quick') else 1
     report['source_changed'] = src_changed
 
     # 2. build: model + driver first (infrastructure), then the property's obligations ------------
